@@ -120,7 +120,8 @@ HANDLERS = [
 READERS = [(b"/h/r", 1000), (b"/h/r5", 5)]
 TARGETS = [b"/f.txt", b"/f.txt", b"/big.txt", b"/e.txt", b"/dir/g.txt", b"/missing.txt", b"/", b"/dir/", b"/./f.txt", b"/h/a", b"/h/a", b"/h/c", b"/h/n",
            b"/h/e", b"/h/r", b"/h/r5", b"/h/k", b"/h/q", b"/h/q?x=1", b"/h/m", b"/h/x", b"/h/u", b"/h/l", b"/f.txt?v=2", b"/h/zz"]
-ACCEPT = [None, None, None, b"gzip", b"br", b"identity", b"gzip, br", b"*", b"zstd, gzip;q=0.5", b"identity;q=0", b"gzip;q=0, identity"]
+ACCEPT = [None, None, None, None, b"gzip", b"br", b"identity", b"gzip, br", b"*", b"zstd, gzip;q=0.5", b"deflate", b"gzip", b"br", b"zstd",
+          b"identity;q=0", b"gzip;q=0, identity"]
 RANGES = [None, None, None, None, b"bytes=0-4", b"bytes=5-", b"bytes=2-2", b"bytes=0-0", b"bytes=100-200", b"bytes=3-2", b"bytes=0-99999", b"bytes=19-19",
           b"bytes=20-25", b"items=0-4", b"bytes=-5"]
 IMS = [None, None, None, b"@T+3600", b"@T-3600", b"yesterday"]
@@ -151,6 +152,8 @@ def rand_request(rng, body_ok=True, origin_p=1.0):
     target = rng.choice(TARGETS)
     hs = []
     a, r, i, o = rng.choice(ACCEPT), rng.choice(RANGES), rng.choice(IMS), rng.choice(ORIGIN)
+    if a is not None and b"q=0" in a and rng.random() < 0.6:
+        a = b"gzip"            # answers to requests that refuse codings are not predicted (406, C06): keep them few
     if a is not None:
         hs.append((b"accept-encoding", a))
     if r is not None and rng.random() < 0.8:
